@@ -12,7 +12,11 @@ pub fn val_json(v: &Amf0Value) -> Value {
         Amf0Value::Boolean(b) => json!({"t":"b","v":b}),
         Amf0Value::Utf8String(s) => json!({"t":"s","s":segs(s.as_bytes())}),
         Amf0Value::Object(p) => {
-            let props: Vec<Value> = p.iter().map(|(k, v)| json!([segs(k.as_bytes()), val_json(v)])).collect();
+            // objects are unordered maps: log the properties sorted by name so that two logs of the
+            // same value are identical (HashMap iteration order is random per instance)
+            let mut keys: Vec<&String> = p.keys().collect();
+            keys.sort();
+            let props: Vec<Value> = keys.iter().map(|k| json!([segs(k.as_bytes()), val_json(&p[*k])])).collect();
             json!({"t":"o","p":props})
         }
         Amf0Value::StrictArray(e) => json!({"t":"a","e": e.iter().map(val_json).collect::<Vec<_>>()}),
